@@ -63,6 +63,9 @@ struct ABTD_ythread_context {
     void *verif_tsan_fiber; /* TSan fiber of this context */
     void *verif_asan_fake;  /* ASan fake stack saved across a switch */
     int verif_tsan_owned;   /* 0: the OS thread's own fiber; else use count */
+    int verif_oncpu; /* 1: running or not completely saved yet */
+    void (*verif_cb)(void *); /* callback wrapped by ABTD_verif_saved_cb */
+    void *verif_cb_arg;
 #endif
 };
 
@@ -71,10 +74,11 @@ struct ABTD_ythread_context {
 #else
 #define ABTD_VERIF_CTX_INIT(p_ctx)
 #define ABTD_VERIF_CTX_FINI(p_ctx)
-#define ABTD_VERIF_PRE_SWITCH(p_old, p_new)
+#define ABTD_VERIF_PRE_SWITCH(p_old, p_new, kind)
 #define ABTD_VERIF_POST_SWITCH(p_old)
-#define ABTD_VERIF_PRE_JUMP(p_new)
+#define ABTD_VERIF_PRE_JUMP(p_new, kind)
 #define ABTD_VERIF_ENTER(p_ctx)
+#define ABTD_VERIF_WRAP_CB(p_old, f_cb, cb_arg)
 #endif
 
 static inline ABTD_ythread_context *
@@ -163,7 +167,7 @@ static inline void ABTD_ythread_context_switch(ABTD_ythread_context *p_old,
 {
     ABTI_UB_ASSERT(ABTDI_fcontext_is_created(&p_new->ctx));
     /* The context is already initialized. */
-    ABTD_VERIF_PRE_SWITCH(p_old, p_new);
+    ABTD_VERIF_PRE_SWITCH(p_old, p_new, ABTI_VERIF_C_CTX_SWITCH);
     switch_fcontext(&p_new->ctx, &p_old->ctx);
     ABTD_VERIF_POST_SWITCH(p_old);
 }
@@ -174,7 +178,7 @@ ABTD_ythread_context_start_and_switch(ABTD_ythread_context *p_old,
 {
     ABTI_UB_ASSERT(!ABTDI_fcontext_is_created(&p_new->ctx));
     /* First time. */
-    ABTD_VERIF_PRE_SWITCH(p_old, p_new);
+    ABTD_VERIF_PRE_SWITCH(p_old, p_new, ABTI_VERIF_C_CTX_START_SWITCH);
     init_and_switch_fcontext(&p_new->ctx, ABTD_ythread_context_func_wrapper,
                              p_new->p_stacktop, &p_old->ctx);
     ABTD_VERIF_POST_SWITCH(p_old);
@@ -185,7 +189,7 @@ ABTD_ythread_context_jump(ABTD_ythread_context *p_new)
 {
     ABTI_UB_ASSERT(ABTDI_fcontext_is_created(&p_new->ctx));
     /* The context is already initialized. */
-    ABTD_VERIF_PRE_JUMP(p_new);
+    ABTD_VERIF_PRE_JUMP(p_new, ABTI_VERIF_C_CTX_JUMP);
     jump_fcontext(&p_new->ctx);
     ABTU_unreachable();
 }
@@ -195,7 +199,7 @@ ABTD_ythread_context_start_and_jump(ABTD_ythread_context *p_new)
 {
     ABTI_UB_ASSERT(!ABTDI_fcontext_is_created(&p_new->ctx));
     /* First time. */
-    ABTD_VERIF_PRE_JUMP(p_new);
+    ABTD_VERIF_PRE_JUMP(p_new, ABTI_VERIF_C_CTX_START_JUMP);
     init_and_jump_fcontext(&p_new->ctx, ABTD_ythread_context_func_wrapper,
                            p_new->p_stacktop);
     ABTU_unreachable();
@@ -209,7 +213,8 @@ ABTD_ythread_context_switch_with_call(ABTD_ythread_context *p_old,
     ABTI_UB_ASSERT(ABTDI_fcontext_is_created(&p_new->ctx));
     /* The context is already initialized. */
 
-    ABTD_VERIF_PRE_SWITCH(p_old, p_new);
+    ABTD_VERIF_WRAP_CB(p_old, f_cb, cb_arg);
+    ABTD_VERIF_PRE_SWITCH(p_old, p_new, ABTI_VERIF_C_CTX_SWITCH_CALL);
     switch_with_call_fcontext(cb_arg, f_cb, &p_new->ctx, &p_old->ctx);
     ABTD_VERIF_POST_SWITCH(p_old);
 }
@@ -220,7 +225,8 @@ static inline void ABTD_ythread_context_start_and_switch_with_call(
 {
     ABTI_UB_ASSERT(!ABTDI_fcontext_is_created(&p_new->ctx));
     /* First time. */
-    ABTD_VERIF_PRE_SWITCH(p_old, p_new);
+    ABTD_VERIF_WRAP_CB(p_old, f_cb, cb_arg);
+    ABTD_VERIF_PRE_SWITCH(p_old, p_new, ABTI_VERIF_C_CTX_START_SWITCH_CALL);
     init_and_switch_with_call_fcontext(cb_arg, f_cb, &p_new->ctx,
                                        ABTD_ythread_context_func_wrapper,
                                        p_new->p_stacktop, &p_old->ctx);
@@ -233,7 +239,7 @@ ABTD_ythread_context_jump_with_call(ABTD_ythread_context *p_new,
 {
     ABTI_UB_ASSERT(ABTDI_fcontext_is_created(&p_new->ctx));
     /* The context is already initialized. */
-    ABTD_VERIF_PRE_JUMP(p_new);
+    ABTD_VERIF_PRE_JUMP(p_new, ABTI_VERIF_C_CTX_JUMP_CALL);
     jump_with_call_fcontext(cb_arg, f_cb, &p_new->ctx);
     ABTU_unreachable();
 }
@@ -243,7 +249,7 @@ ABTU_noreturn static inline void ABTD_ythread_context_start_and_jump_with_call(
 {
     ABTI_UB_ASSERT(!ABTDI_fcontext_is_created(&p_new->ctx));
     /* First time. */
-    ABTD_VERIF_PRE_JUMP(p_new);
+    ABTD_VERIF_PRE_JUMP(p_new, ABTI_VERIF_C_CTX_START_JUMP_CALL);
     init_and_jump_with_call_fcontext(cb_arg, f_cb, &p_new->ctx,
                                      ABTD_ythread_context_func_wrapper,
                                      p_new->p_stacktop);
